@@ -4,13 +4,44 @@ This is the main class for storing and updating the state of a single host
 in the NASim environment.
 """
 
+import copyreg
+
 import numpy as np
 
 from nasim.envs.utils import AccessLevel
 from nasim.envs.action import ActionResult
 
 
-class HostVector:
+class _HostVectorType(type):
+    """The type of the HostVector classes.
+
+    Only needed so that the classes made by :meth:`HostVector.for_scenario`
+    (which cannot be found by name) are pickled by value, which keeps states,
+    observations and environments picklable.
+    """
+
+
+def _restore_scenario_cls(layout):
+    cls = HostVector.for_scenario()
+    for name, value in layout.items():
+        setattr(cls, name, value)
+    return cls
+
+
+def _reduce_host_vector_cls(cls):
+    if cls is HostVector:
+        # the base class is pickled by reference, as any class
+        return cls.__qualname__
+    layout = {
+        k: v for k, v in vars(cls).items() if not k.startswith("__")
+    }
+    return _restore_scenario_cls, (layout,)
+
+
+copyreg.pickle(_HostVectorType, _reduce_host_vector_cls)
+
+
+class HostVector(metaclass=_HostVectorType):
     """ A Vector representation of a single host in NASim.
 
     Each host is represented as a vector (1D numpy array) for efficiency and to
